@@ -100,7 +100,7 @@ inline void pat(Case &c, const std::string &p, int m, int n, bool structured = t
     int cls = rng(0, 9);
     int r = cls == 0 ? 0 : cls == 1 ? 1 : cls == 2 ? mn : cls == 3 ? std::max(0, mn - 1) : cls < 7 ? rng(0, mn) : rng(0, std::max(1, mn / 3));
     c.set(p + ".r", r);
-    c.sets(p + ".prof", wpick<std::string>({{3, "gaps"}, {2, "lead"}, {1, "tail"}, {3, "wordgap"}, {3, "runs"}}));
+    c.sets(p + ".prof", wpick<std::string>({{3, "gaps"}, {2, "lead"}, {1, "tail"}, {3, "wordgap"}, {3, "runs"}, {1, "halves"}}));
   }
 }
 
@@ -116,7 +116,7 @@ inline void rankpat(Case &c, const std::string &p, int m, int n) {
     int cls = rng(0, 9);
     int r = cls == 0 ? 0 : cls == 1 ? 1 : cls == 2 ? mn : cls == 3 ? std::max(0, mn - 1) : cls < 7 ? rng(0, mn) : rng(0, std::max(1, mn / 3));
     c.set(p + ".r", r);
-    c.sets(p + ".prof", wpick<std::string>({{3, "gaps"}, {2, "lead"}, {1, "tail"}, {3, "wordgap"}, {4, "runs"}}));
+    c.sets(p + ".prof", wpick<std::string>({{3, "gaps"}, {2, "lead"}, {1, "tail"}, {3, "wordgap"}, {4, "runs"}, {2, "halves"}}));
   }
 }
 
